@@ -280,6 +280,7 @@ func cmdTable(args []string) int {
 	from := fs.Int64("from", 1, "first scenario seed")
 	count := fs.Int("count", 10, "number of scenarios")
 	profile := fs.String("profile", "general", "scenario family")
+	via := fs.String("via", "", "manager: route every call through a pokertable.Manager")
 	allowS := fs.String("allow", "", "comma list of known-finding triggers this pool may contain")
 	out := fs.String("out", "", "output ndjson")
 	scenFile := fs.String("scenario", "", "run the scenarios (JSON list) in this file instead of generating")
@@ -322,10 +323,14 @@ func cmdTable(args []string) int {
 	syscall.Dup2(int(null.Fd()), 1)
 	stuck, done := 0, 0
 	for _, sc := range scs {
+		if *via != "" {
+			sc.Via = *via
+		}
 		rec.StartTrace(int(sc.Seed))
 		b, _ := json.Marshal(sc)
 		a := mkArgs()
 		a.Note = string(b)
+		a.Kind = sc.Via
 		rec.Emit("scenario", a, "", nil, nil, nil, false)
 		rec.Flush()
 		d := NewTD(rec, sc)
